@@ -117,6 +117,23 @@ T = [
      "            Self::BeforeHookPanicked { world, .. }\n            | Self::StepPanicked { world, .. } => world.take(),\n            Self::StepSkipped(_) => None,"),
     ("c09_after_hook_without_world", "C09/R5", B,
      "                    &ev,\n                    world.as_mut(),", "                    &ev,\n                    None,"),
+    # ---- C13
+    ("c13_feature_bg_skipped_uses_step_mapper", "C13/R1", "src/writer/fail_on_skipped.rs",
+     "                ) => map_failed_bg(f, None, sc, st, retries),", "                ) => map_failed_step(f, None, sc, st, retries),"),
+    ("c13_rule_level_loses_rule", "C13/R1", "src/writer/fail_on_skipped.rs",
+     "                ) => map_failed_step(f, Some(r), sc, st, retries),", "                ) => {\n                    drop(r);\n                    map_failed_step(f, None, sc, st, retries)\n                }"),
+    ("c13_default_predicate_ignores_feature_tags", "C13/R1", "src/writer/fail_on_skipped.rs",
+     "                    .chain(rule.iter().flat_map(|r| &r.tags))\n                    .chain(&feat.tags)\n                    .any(|t| t == \"allow.skipped\")", "                    .chain(rule.iter().flat_map(|r| &r.tags))\n                    .any(|t| t == \"allow.skipped\")"),
+    ("c13_repeat_failed_without_parser_errors", "C13/R2", "src/writer/repeat.rs",
+     "                    )) | Err(_),\n                )", "                    )),\n                )"),
+    ("c13_repeat_replays_reversed", "C13/R2", "src/writer/repeat.rs",
+     "            for ev in mem::take(&mut self.events) {", "            for ev in mem::take(&mut self.events).into_iter().rev() {"),
+    ("c13_repeat_buffers_everything_after_failure", "C13/R2", "src/writer/repeat.rs",
+     "        if (self.filter)(&event) {\n            self.events.push(event.clone());\n        }", "        if (self.filter)(&event) || !self.events.is_empty() {\n            self.events.push(event.clone());\n        }"),
+    ("c13_or_sends_to_both", "C13/R3", "src/writer/or.rs",
+     "        if (self.predicate)(&event, cli) {\n            self.left.handle_event(event, &cli.left).await;\n        } else {", "        if (self.predicate)(&event, cli) {\n            self.left.handle_event(event.clone(), &cli.left).await;\n        }\n        {"),
+    ("c13_tee_write_left_only", "C13/R3", "src/writer/tee.rs",
+     "        future::join(self.left.write(val.clone()), self.right.write(val)).await;", "        self.left.write(val.clone()).await;\n        drop(val);"),
     # ---- C10
     ("c10_world_new_outside_catch", "C10/R1", B,
      "                match AssertUnwindSafe(async { W::new().await })\n                    .catch_unwind()\n                    .then_yield()\n                    .await\n                {\n                    Ok(Ok(w)) => w,",
